@@ -105,7 +105,7 @@ def expected_title(entry):
 
 
 def worker(args):
-    res = report.WorkResult('web first=%r/%r' % (args['file'], args['path']))
+    res = report.WorkResult('web first=%r/%r bg=%s' % (args['file'], args['path'], args['bg0']))
     world.start_function_trace()
     res.sites.update(['routing', 'escaping', 'derivation', 'stops', 'status-capture'])
     install_flask_stub()
@@ -115,14 +115,14 @@ def worker(args):
     import web.front_end as fe_mod
     from web import i_web
     from bardolph.lib import injection
-    seed = args['seed']
+    seed_box = [args['seed']]
     tmp = tempfile.mkdtemp(prefix='c20-')
     cwd = os.getcwd()
     problems_seen = {}
 
     def pick(ctx, options, name):
         n = len(options)
-        perm = random.Random(seed * 7919 + len(ctx.trail) * 31 + n).sample(range(n), n)
+        perm = random.Random(seed_box[0] * 7919 + len(ctx.trail) * 31 + n).sample(range(n), n)
         return options[perm[ctx.choose(n, name)]]
 
     def harness(ctx):
@@ -138,7 +138,7 @@ def worker(args):
             t = pick(ctx, TITLES, 'title')
             if t is not None:
                 e['title'] = t
-            if ctx.choose(2, 'background-job') == 1:
+            if (args['bg0'] if i == 0 else ctx.choose(2, 'background-job') == 1):
                 e['run_background'] = True
             entries.append(e)
         by_path = {}
@@ -294,17 +294,26 @@ def worker(args):
         finally:
             os.chdir(cwd)
     try:
-        for ctx, out in symx.explore(harness, max_paths=args['max_paths'], timeout_ms=1000, stats=res.stats, deadline=time.time() + args['budget_s']):
-            if isinstance(out, symx.Abort):
-                res.out_of_bound += 1
-                continue
-            entries, reqs, problems = out
-            res.nontrivial += 1
-            res.reached.update(['routing', 'escaping', 'derivation', 'stops', 'status-capture'])
-            if problems:
-                key = sig_of(problems[0])
-                if key not in problems_seen:
-                    problems_seen[key] = (entries, reqs, problems[0])
+        restarts = args['restarts']
+        all_exhaustive = True
+        for restart in range(restarts):
+            # depth-first search varies the last decisions (requests) fastest; restarting with another seeded
+            # ordering of every decision spreads the path budget over different manifests as well
+            seed_box[0] = args['seed'] * 131 + restart
+            for ctx, out in symx.explore(harness, max_paths=args['max_paths'] // restarts, timeout_ms=1000, stats=res.stats,
+                                         deadline=time.time() + args['budget_s'] / restarts):
+                if isinstance(out, symx.Abort):
+                    res.out_of_bound += 1
+                    continue
+                entries, reqs, problems = out
+                res.nontrivial += 1
+                res.reached.update(['routing', 'escaping', 'derivation', 'stops', 'status-capture'])
+                if problems:
+                    key = sig_of(problems[0])
+                    if key not in problems_seen:
+                        problems_seen[key] = (entries, reqs, problems[0])
+            all_exhaustive = all_exhaustive and symx.explore.last_exhaustive
+        symx.explore.last_exhaustive = all_exhaustive
     finally:
         shutil.rmtree(tmp, ignore_errors=True)
     for key, (entries, reqs, msg) in problems_seen.items():
@@ -326,8 +335,8 @@ def sig_of(msg):
 def run(tier, seed):
     t0 = time.time()
     q = tier == 'quick'
-    items = [{'file': f, 'path': p, 'seed': seed, 'max_entries': 2 if q else 3, 'requests': 4 if q else 5,
-              'max_paths': 4000 if q else 200000, 'budget_s': 25 if q else 500} for f in FILES for p in PATHS]
+    items = [{'file': f, 'path': p, 'bg0': bg, 'seed': seed, 'max_entries': 2 if q else 3, 'requests': 4 if q else 5, 'restarts': 8 if q else 40,
+              'max_paths': 2400 if q else 200000, 'budget_s': 16 if q else 300} for f in FILES for p in PATHS for bg in (False, True)]
     results, skipped = report.run_pool(worker, items, budget_s=common.tier_budget(tier, 70, 900))
     return report.finish(
         PROP, tier, seed, 'exploration', results, skipped,
